@@ -88,6 +88,14 @@ def case(g, tier, ci):
     if ci % 6 == 2:
         # a refused addBluePrint (an empty blueprint) on an occupied channel changes nothing
         ops += [{"op": "bp.new", "id": "empty"}, {"op": "el.addBP", "id": "e", "ch": r.choice(chans), "bp": "empty"}]
+    if ci % 8 == 5:
+        # a channel re-assigned with the SAME blueprint at another sample rate (equal segments, so `==` to the stored one):
+        # the channel takes the new rate (seeded C06-m18: the call dropped as a no-op)
+        bch = [o for o in ops if o["op"] == "el.addBP" and o["id"] == "e"]
+        if bch:
+            tgt = r.choice(bch)
+            ops += [{"op": "bp.setSR", "id": tgt["bp"], "SR": enc(SR * r.choice([2, 4]))}, {"op": "el.addBP", "id": "e", "ch": tgt["ch"], "bp": tgt["bp"]}]
+            sr_dev = True
     if r.random() < 0.35 and not sr_dev:      # (with one sample rate only: the new durations are whole samples, no ties)
         # a query first (it caches SR/duration), then an edit that may make the channels unequal, then everything again
         ops.append({"op": r.choice(["el.validate", "el.points", "el.duration", "el.SR"]), "id": "e"})
